@@ -16,7 +16,7 @@ import itertools
 import numpy as np
 
 PROP = 'C18'
-TARGETS = ['T18']
+TARGETS = ['T18', 'T18s']
 LEAN_MODULES = ['HdVerif.Props.C18']
 MODEL_MODULES = ['HdVerif.Model.Ann']
 NAMESPACE = 'HdVerif.C18'
